@@ -12,6 +12,24 @@
   * "the auth chain of P which also belongs to the full conflicted set" follows `auth_events` edges
     inside the full conflicted set;
   * power-levels / join-rules events are power events when their state key is empty.
+  Implementation-shaped pieces of this file (places where the specification text says nothing and
+  this file follows the code, so that on them "spec = code" holds by choice, not by the text):
+  * `senderPower`, branch `none` (no `m.room.create` among the event's `auth_events`): the
+    specification does not define a sender's power level there — such an event cannot occur in a
+    room — and this file returns the implementation's value (`users_default` of the cited
+    power-levels event);
+  * `iterativeAuthChecks`: the specification only says "apply the event if it is allowed". The
+    cases it is silent about are decided as the implementation decides them: an unknown event id,
+    an event without `state_key`, or a fetched auth event without `state_key` abort the resolution
+    with an error; an event for which the auth-types selection `p.authTypes` fails is skipped (not
+    applied, no error);
+  * `authStateFor` takes the *last* matching auth event when several of an event's `auth_events`
+    have the same `(type, state_key)`;
+  * `tsOf` (0 for an unknown event) and the `getD 0` in `reversePowerOrdering` are totalising
+    defaults that cannot be reached: `reversePowerOrdering` evaluates the keys only after
+    `senderPowers` succeeded on the same list `X`, which fetches every event of `X` and binds a
+    power level to every id of `X` (so `fetch id` is `some _` and `AL.get pls id` is `some _` for
+    every vertex whose key is taken).
   The authorization rules themselves (C08) and the auth-event selection (C09) are parameters.
 -/
 import RumaModel.Model.StateRes
@@ -214,6 +232,9 @@ def senderPowers (p : Params) (fetch : Id → Option Event) : List Id → Except
       | none, _ => .error .err
       | _, .error x => .error x
 
+/-- `origin_server_ts` of a known event. The value 0 for an unknown id is a totalising default, not a
+reading of the specification: the only caller (`reversePowerOrdering`) asks for the ids of `X` after
+`senderPowers … X` succeeded, which has fetched every one of them. -/
 def tsOf (fetch : Id → Option Event) (id : Id) : Int :=
   match fetch id with
   | some e => e.originServerTs
@@ -226,7 +247,8 @@ def powerEventsWithChains (p : Params) (fetch : Id → Option Event) (F : List I
   authClosure fetch F F.length (F.filter (fun id => (fetch id).any (isPowerEvent p)))
 
 /-- Step 1, the ordering: "sort `X` into a list using the reverse topological power ordering" (fails
-when the power level of some sender cannot be read). -/
+when the power level of some sender cannot be read). The `getD 0` is unreachable as a default: `pls`
+binds every id of `X` when `senderPowers` returned `.ok pls`, and the graph's vertices are `X`. -/
 def reversePowerOrdering (p : Params) (fetch : Id → Option Event) (X : List Id) : Except Fail (List Id) :=
   match senderPowers p fetch X with
   | .error x => .error x
